@@ -132,8 +132,9 @@ def run(k: int) -> dict:
             s.sendall(acr.as_bytes())
 
         # all K requests have reached the application
-        assert wait_for(lambda: len(
-            node._peer_waiting_answer.get("client.example.net", {})) == k), \
+        # (adapted after /repo 9ce2ff5: the table is keyed by connection ident, not by host)
+        assert wait_for(lambda: sum(
+            len(v) for v in list(node._peer_waiting_answer.values())) == k), \
             "requests did not arrive"
         # the peer goes away while the application is still busy
         s.close()
